@@ -45,6 +45,7 @@ type C30Scn struct {
 	Clients     []C30Client `json:"clients"`
 	Rotate      bool        `json:"rotate"`            // replace the certificate files and perform the documented reload step
 	UpdateFirst bool        `json:"update_first"`      // an unrelated UpdatePolicyOptions before the rotation
+	EarlyReload bool        `json:"early_reload,omitempty"` // another ReloadCertificates call, started before the files are replaced, overlaps with the rotation
 	Restart     bool        `json:"restart,omitempty"` // between the two halves: stop, replace the CA file (same path) by another CA, start a new server instance
 	Sched       SchedCfg    `json:"sched"`
 }
@@ -225,6 +226,23 @@ func runC30(t *testing.T, scAny any, trace bool) *Outcome {
 					simrt.Event("update failed: %v", err)
 				}
 			}
+			var early chan int
+			if sc.EarlyReload {
+				// an operator's reload that was started BEFORE the files were replaced and overlaps with the
+				// rotation: whichever way the two reloads interleave, the step performed after the replacement
+				// completes last in real time, so new handshakes present the new certificate
+				if eo := w.NFS.GetExportOptions(); eo.TLS != nil {
+					early = make(chan int, 1)
+					simrt.Go("early-reload", func() {
+						defer simrt.Send("early.done", early, 1)
+						eo.TLS.ReloadCertificates()
+					})
+					simrt.Yield(simrt.ClassMisc, "rotation.begin")
+				}
+			}
+			if early != nil {
+				defer func() { simrt.Recv("early.wait", early) }()
+			}
 			os.WriteFile(certFile, pki.srvBPEM, 0o600)
 			opts := w.NFS.GetExportOptions()
 			o.Tick()
@@ -357,6 +375,11 @@ func genC30(r *simrt.Rand, tier string) any {
 	if sc.ClientAuth >= 3 && r.Pct(70) {
 		sc.CA = 1
 	}
+	if sc.Rotate && r.Pct(25) {
+		sc.EarlyReload = true
+		sc.Sched = RandSched(r)
+		sc.Sched.HorizonS = 3600
+	}
 	if r.Pct(12) {
 		sc.CA = 3 + r.Int(2) // a damaged CA bundle
 		if r.Pct(70) {
@@ -410,7 +433,7 @@ func shrinkC30(scAny any) []any {
 
 func init() {
 	Register(&Prop{ID: "C30", Level: "exploration",
-		Rule: "one case = a TLS configuration drawn from {DefaultTLSConfig or zero value} x Min/MaxVersion in {0, 1.0, 1.1, 1.2, 1.3} (55% recommended ranges) x the five ClientAuth modes x CA file {none, the CA, missing, blank, damaged} (the process's system root store is set to the FOREIGN CA, so a server that falls back to system roots serves the foreign-CA client) x cipher suites {as given, Go defaults, with CBC-SHA suites}; when Listen accepts it (real BuildConfig/Validate, tls.Listen seam on the simulated network, real crypto/tls on both ends) 2-6 clients offering version ranges within 1.0..1.3 (35% downgrade attempts capped at 1.0/1.1 with the CBC-SHA suites those versions need) and a certificate from {none, self-signed, signed by the configured CA, signed by another CA} half of them without a server name in the ClientHello, perform a handshake followed by a NULL call (a handshake counts as completed when the server answers); in half of the runs the certificate files are replaced between the first and the second half of the clients and the documented rotation step is performed (optionally after an unrelated UpdatePolicyOptions); in 30% of the runs with a CA the server is stopped between the halves, the CA file is replaced at the same path by another CA and a new instance is started in the same process (the verified chain must then be the new CA's); oracle: no served connection negotiated less than TLS 1.2; when client certificates are verified against the configured CA (RequireAndVerify, or VerifyIfGiven with a certificate given) only the CA-signed client is served; every served handshake presents the leaf certificate currently in the files as of the last rotation step; non-trivial = the configuration was accepted; distinct by event digest. The simulator contributes the network seam and determinism; the schedule dimension is small (sequential clients).",
+		Rule: "one case = a TLS configuration drawn from {DefaultTLSConfig or zero value} x Min/MaxVersion in {0, 1.0, 1.1, 1.2, 1.3} (55% recommended ranges) x the five ClientAuth modes x CA file {none, the CA, missing, blank, damaged} (the process's system root store is set to the FOREIGN CA, so a server that falls back to system roots serves the foreign-CA client) x cipher suites {as given, Go defaults, with CBC-SHA suites}; when Listen accepts it (real BuildConfig/Validate, tls.Listen seam on the simulated network, real crypto/tls on both ends) 2-6 clients offering version ranges within 1.0..1.3 (35% downgrade attempts capped at 1.0/1.1 with the CBC-SHA suites those versions need) and a certificate from {none, self-signed, signed by the configured CA, signed by another CA} half of them without a server name in the ClientHello, perform a handshake followed by a NULL call (a handshake counts as completed when the server answers); in half of the runs the certificate files are replaced between the first and the second half of the clients and the documented rotation step is performed (optionally after an unrelated UpdatePolicyOptions; in a quarter of the rotations another ReloadCertificates call that was started before the files were replaced overlaps with the step, under the seeded scheduler); in 30% of the runs with a CA the server is stopped between the halves, the CA file is replaced at the same path by another CA and a new instance is started in the same process (the verified chain must then be the new CA's); oracle: no served connection negotiated less than TLS 1.2; when client certificates are verified against the configured CA (RequireAndVerify, or VerifyIfGiven with a certificate given) only the CA-signed client is served; every served handshake presents the leaf certificate currently in the files as of the last rotation step; non-trivial = the configuration was accepted; distinct by event digest. The simulator contributes the network seam and determinism; the schedule dimension is small (sequential clients).",
 		Gen:  genC30, New: func() any { return &C30Scn{} }, Run: runC30, Shrink: shrinkC30,
 		Real:        []string{"tls_config.go Validate/BuildConfig/ReloadCertificates/Clone", "server.go Listen/accept/connection loop", "crypto/tls and crypto/x509 on both ends", "options.go policy snapshots (GetExportOptions, UpdatePolicyOptions)"},
 		Stubbed:     []string{"kernel TCP (simnet under tls.NewListener / tls.Client)", "clock (synctest)", "scheduler", "certificate files live in a per-run temporary directory on the real filesystem"},
